@@ -36,6 +36,39 @@ Theorem C13_agree_elements : forall (s : list N) eg ed, kb_lower s = false ->
 Proof. exact scanners_agree. Qed.
 Print Assumptions C13_agree_elements.
 
+(* ---- one interpretation, classification.
+   Full statement (NOT proved): outside the known findings the generator's test on the raw text equals the
+   decoder's zoned_decimal on every accepted picture. *)
+Definition C13_agree_class_full : Prop := forall (s : list N) r, known_bad s = false ->
+  dec_parse s = Some (Ok r) -> gen_numeric s = p_zoned r.
+
+(* Proved half: the generator's classification is the specification's (only S V P 9 denoted) for every picture
+   string outside the known findings.  The other half, p_zoned r = numeric v, is checked case by case by the
+   judge (summary_eqb in Judge/JC13.v) but is not a theorem. *)
+Theorem C13_agree_class_partial : forall (s : list N) v, known_bad s = false ->
+  sp_parse s = Some v -> gen_numeric s = numeric v.
+Proof. exact gen_class. Qed.
+Print Assumptions C13_agree_class_partial.
+
+(* ---- repeat-count equivalence.
+   Full statement (NOT proved): the expansion e of an accepted picture s is accepted too and has the same size,
+   sign, integer and fraction digit counts and class. *)
+Definition C13_repeat_full : Prop := forall (s e : list N) r, known_bad s = false ->
+  sp_expand s = Some e -> dec_parse s = Some (Ok r) ->
+  exists r', dec_parse e = Some (Ok r') /\ p_size r' = p_size r /\
+    g_sign (p_groups r') = g_sign (p_groups r) /\
+    length (g_int (p_groups r')) = length (g_int (p_groups r)) /\
+    length (g_frac (p_groups r')) = length (g_frac (p_groups r)) /\ p_zoned r' = p_zoned r.
+
+(* Proved part: when the expansion is itself outside the known findings and accepted, it has the same size, and
+   it denotes the same thing (it is its own expansion: same positions, sign, digit counts and class in the
+   specification's reading). *)
+Theorem C13_repeat_partial : forall (s e : list N) r r', known_bad s = false -> known_bad e = false ->
+  sp_expand s = Some e -> dec_parse s = Some (Ok r) -> dec_parse e = Some (Ok r') ->
+  p_size r' = p_size r /\ sp_parse e = sp_parse s.
+Proof. exact repeat_partial. Qed.
+Print Assumptions C13_repeat_partial.
+
 (* ---- refutations of the unguarded statements by the faithful model: one witness per known finding ---- *)
 Definition str_9q9 : list N := [57; 63; 57].             (* 9?9 *)
 Definition str_9_0 : list N := [57; 40; 48; 41].         (* 9(0) *)
@@ -119,3 +152,11 @@ Proof. vm_compute. split; reflexivity. Qed.
 Example C13_example_rejected :
   known_bad [88; 88; 40; 51; 41] = false /\ dec_parse [88; 88; 40; 51; 41] = Some (Err ValueError).
 Proof. vm_compute. split; reflexivity. Qed.
+(* the hypotheses of C13_repeat_partial are satisfiable: Z(3)9.99CR and its expansion ZZZ9.99CR *)
+Example C13_example_repeat :
+  let s := [90; 40; 51; 41; 57; 46; 57; 57; 67; 82] in
+  let e := [90; 90; 90; 57; 46; 57; 57; 67; 82] in
+  known_bad s = false /\ known_bad e = false /\ sp_expand s = Some e /\
+  is_ok (match dec_parse s with Some x => x | None => Err OtherError end) = true /\
+  is_ok (match dec_parse e with Some x => x | None => Err OtherError end) = true.
+Proof. vm_compute. repeat split; reflexivity. Qed.
